@@ -942,7 +942,7 @@ class FnGen:
             else:
                 self.emit("switch int(uint(%s) %% 5) {" % tag)
             ncl = 2 + r.below(3)
-            consts = r.shuffle(list(range(6)))
+            consts = r.shuffle(list(range(9)))
             dpos = r.below(ncl + 1) if r.chance(2, 3) else -1
             ci = 0
             for c in range(ncl + (1 if dpos >= 0 else 0)):
@@ -1097,7 +1097,7 @@ class FnGen:
             self.ind -= 1
             self.emit("}")
         elif shape == 3:
-            p = self.fresh("p")
+            p = self.fresh("pp")
             self.emit("var %s *int" % p)
             self.emit("if %s {" % self.cond(1))
             self.emit("\t%s = &%s" % (p, x))
@@ -1147,8 +1147,8 @@ class FnGen:
         r = self.rng
         k = r.below(10)
         if k < 5:
-            f = self.fresh("f")
-            a = self.fresh("a")
+            f = self.fresh("fn")
+            a = self.fresh("ca")
             lines, eff = self.closure_body([(a, "int")], ["int"], r.below(3), d - 1)
             self.emit("%s := func(%s int) int {" % (f, a))
             self.lines += lines
@@ -1197,7 +1197,7 @@ class FnGen:
         if k < 3:
             self.emit("defer obsI(%s)" % self.e_int("int", 1, PA()))
         elif k < 6:
-            a = self.fresh("a")
+            a = self.fresh("ca")
             lines, eff = self.closure_body([(a, "int")], [], 1 + r.below(2), d - 1)
             self.emit("defer func(%s int) {" % a)
             self.lines += lines
@@ -1566,19 +1566,431 @@ def make_main(pg, cases):
     return "\n".join(out) + "\n"
 
 
-if __name__ == "__main__":
-    seed = int(sys.argv[1]) if len(sys.argv) > 1 else 1
-    pg = PGen(seed)
+
+
+# =========================================================================== programs
+class Program:
+    """One program under test: `src` is a complete `package main` file that only lacks the
+    observers obsI/obsS/obsB (bodyless in the IR build, recording in the compiled build)."""
+
+    def __init__(self, name, src, global_inits, entries, cases, origin):
+        self.name = name
+        self.src = src
+        self.global_inits = global_inits   # [(name, type, init literal)]
+        self.entries = entries             # [(fname, [ptypes], [rtypes])]
+        self.cases = cases                 # [(fname, ptypes, rtypes, vec)]
+        self.origin = origin
+
+
+def program_from_seed(name, seed, nvec, nentries=24):
+    pg = PGen(seed, nentries=nentries)
     cases = []
     for (fname, pt, rt) in pg.entries:
-        for vec in pg.vectors(pt, 6):
+        for vec in pg.vectors(pt, nvec):
             cases.append((fname, pt, rt, vec))
-    d = sys.argv[2] if len(sys.argv) > 2 else "/tmp/c01x/gen"
-    os.makedirs(d, exist_ok=True)
-    open(os.path.join(d, "prog.go"), "w").write(pg.prog_src)
-    open(os.path.join(d, "stub.go"), "w").write(STUB)
-    open(os.path.join(d, "main.go"), "w").write(make_main(pg, cases))
-    with open(os.path.join(d, "cases.txt"), "w") as f:
-        for (fname, pt, rt, vec) in cases:
-            f.write("%s %s\n" % (fname, " ".join(lean_arg(k, v) for k, v in vec)))
-    print(len(cases), "cases")
+    return Program(name, pg.prog_src, pg.global_inits, pg.entries, cases, {"generator_seed": seed, "nvec": nvec, "nentries": nentries})
+
+
+import re as _re
+
+_ENTRY = _re.compile(r"^//c01:entry\s+(\w+)\(([^)]*)\)\s*(.*)$")
+_GLOBAL = _re.compile(r"^//c01:global\s+(\w+)\s+(\S+)\s+(.*)$")
+
+
+def program_from_corpus(name, text, nvec, seed=12345):
+    """corpus file: `package main` source with header comments
+         //c01:global G0 int 3
+         //c01:entry f0(int,string) int,bool
+    input vectors are derived deterministically (the same scheme as generated programs)."""
+    gl, entries = [], []
+    for line in text.splitlines():
+        m = _GLOBAL.match(line)
+        if m:
+            gl.append((m.group(1), m.group(2), m.group(3).strip()))
+        m = _ENTRY.match(line)
+        if m:
+            pt = [x.strip() for x in m.group(2).split(",") if x.strip()]
+            rt = [x.strip() for x in m.group(3).split(",") if x.strip()]
+            entries.append((m.group(1), pt, rt))
+    if not entries:
+        raise vlib.HarnessError("corpus program %s declares no //c01:entry" % name)
+    vg = PGen.__new__(PGen)
+    vg.rng = vlib.SplitMix(seed)
+    cases = []
+    for (fname, pt, rt) in entries:
+        for vec in PGen.vectors(vg, pt, nvec):
+            cases.append((fname, pt, rt, vec))
+    return Program(name, text, gl, entries, cases, {"corpus": name})
+
+
+def make_run(prog, pkg):
+    """run.go of the compiled copy: observers, case runner, `Run()`."""
+    out = [MAIN_HEAD.replace("package main", "package %s" % pkg, 1)]
+    out.append("func resetGlobals() {")
+    for (n, t, init) in prog.global_inits:
+        out.append("\t%s = %s" % (n, init))
+    out.append("}\n")
+    names = sorted(n for (n, t, i) in prog.global_inits)
+    out.append("func globals() string {")
+    if names:
+        out.append("\treturn " + ' + " " + '.join('"%s=" + show(%s)' % (n, n) for n in names))
+    else:
+        out.append('\treturn ""')
+    out.append("}\n")
+    out.append("func Run() {")
+    for (fname, ptypes, rtypes, vec) in prog.cases:
+        args = ", ".join(go_lit(k, v, t) for (k, v), t in zip(vec, ptypes))
+        if rtypes:
+            rs = ", ".join("x%d" % i for i in range(len(rtypes)))
+            shows = ' + " " + '.join("show(x%d)" % i for i in range(len(rtypes)))
+            out.append("\trunCase(func() string { %s := %s(%s); return \"RET \" + %s })" % (rs, fname, args, shows))
+        else:
+            out.append("\trunCase(func() string { %s(%s); return \"RET\" })" % (fname, args))
+    out.append("}")
+    return "\n".join(out) + "\n"
+
+
+MODES = ["N", "L", "ND", "LD"]
+MAXSTEPS = 400000
+
+
+def case_line(mode, fname, vec):
+    return ("RUN %s %s %d %s" % (mode, vlib.hexs("main." + fname), MAXSTEPS, " ".join(lean_arg(k, v) for k, v in vec))).rstrip()
+
+
+def show_case(c):
+    fname, pt, rt, vec = c
+    return "%s(%s)" % (fname, ", ".join(go_lit(k, v, t) for (k, v), t in zip(vec, pt)))
+
+
+def set_pkg(src, pkg):
+    return _re.sub(r"^package main\b", "package " + pkg, src, count=1, flags=_re.M)
+
+
+def build_and_run_batch(ctx, bdir, progs):
+    """Compile all programs of a batch into ONE binary (one package per program, one link) and run
+    it: returns {prog.name: [output line per case]}."""
+    os.makedirs(bdir, exist_ok=True)
+    with open(os.path.join(bdir, "go.mod"), "w") as f:
+        f.write("module gen\n\ngo 1.26\n")
+    imports, calls = [], []
+    for i, pr in enumerate(progs):
+        pkg = "p%d" % i
+        d = os.path.join(bdir, pkg)
+        os.makedirs(d, exist_ok=True)
+        with open(os.path.join(d, "prog.go"), "w") as f:
+            f.write(set_pkg(pr.src, pkg))
+        with open(os.path.join(d, "run.go"), "w") as f:
+            f.write(make_run(pr, pkg))
+        imports.append('\t%s "gen/%s"' % (pkg, pkg))
+        calls.append('\tfmt.Println("##BEGIN %d")\n\t%s.Run()' % (i, pkg))
+    with open(os.path.join(bdir, "main.go"), "w") as f:
+        f.write("package main\n\nimport (\n\t\"fmt\"\n%s\n)\n\nfunc main() {\n%s\n}\n" % ("\n".join(imports), "\n".join(calls)))
+    rc, so, se = vlib.run([vlib.GO, "build", "-p", "4", "-gcflags=-e", "-o", "prog", "."], cwd=bdir, env=vlib.go_env(), timeout=900)
+    if rc != 0:
+        raise vlib.HarnessError("the Go toolchain rejects a program of batch %s (generator/corpus bug, not a case):\n%s" % (bdir, (so + se)[-3000:]))
+    rc, so, se = vlib.run([os.path.join(bdir, "prog")], cwd=bdir, timeout=300)
+    if rc != 0:
+        raise vlib.HarnessError("compiled batch %s failed (%d): %s" % (bdir, rc, se[-2000:]))
+    res, cur = {}, None
+    for line in so.splitlines():
+        if line.startswith("##BEGIN "):
+            cur = progs[int(line.split()[1])].name
+            res[cur] = []
+        else:
+            res[cur].append(line)
+    for pr in progs:
+        if len(res.get(pr.name, [])) != len(pr.cases):
+            raise vlib.HarnessError("compiled program %s: %d outputs for %d cases" % (pr.name, len(res.get(pr.name, [])), len(pr.cases)))
+    return res
+
+
+def dump_ir(ctx, dumpbin, pdir, prog, modes=MODES):
+    os.makedirs(pdir, exist_ok=True)
+    a, b = os.path.join(pdir, "prog.go"), os.path.join(pdir, "stub.go")
+    with open(a, "w") as f:
+        f.write(prog.src)
+    with open(b, "w") as f:
+        f.write(STUB)
+    rc, so, se = vlib.run([dumpbin, "-modes", ",".join(modes), a, b], env=vlib.go_env(), timeout=300)
+    if rc != 0:
+        raise vlib.HarnessError("c01dump failed on %s (%d): %s" % (prog.name, rc, se[-2000:]))
+    return so.splitlines()
+
+
+def run_driver(lines, timeout=900):
+    rc, so, se = vlib.run([vlib.driver_path("C01")], input="".join(l + "\n" for l in lines), timeout=timeout)
+    if rc != 0:
+        raise vlib.HarnessError("c01driver exited %d: %s" % (rc, se[-2000:]))
+    out = so.split("\n")
+    if out and out[-1] == "":
+        out.pop()
+    if len(out) != len(lines):
+        raise vlib.HarnessError("c01driver: %d outputs for %d inputs" % (len(out), len(lines)))
+    return out
+
+
+# =========================================================================== dump statistics
+HEX_SPLIT = "split alloc".encode().hex()
+
+
+def dump_stats(lines):
+    """per mode: {function name: {...}} measured on the dump text (for the evidence only)."""
+    out, mode, cur = {}, None, None
+    for l in lines:
+        t = l.split(" ")
+        if t[0] == "prog":
+            mode = t[1]
+            out[mode] = {}
+        elif t[0] == "func":
+            name = bytes.fromhex(t[2]).decode() if t[2] != "-" else ""
+            cur = {"name": name, "phis": 0, "allocs": 0, "loads": 0, "stores": 0, "split": 0, "recover": t[6] != "-",
+                   "blocks": int(t[7]), "instrs": 0, "kinds": set(), "shape": []}
+            out[mode][name] = cur
+        elif t[0] == "ins" and cur is not None:
+            k = t[4]
+            cur["instrs"] += 1
+            cur["kinds"].add(k)
+            cur["shape"].append(k + ":" + t[2])
+            if k == "phi":
+                cur["phis"] += 1
+            elif k == "alloc":
+                cur["allocs"] += 1
+                if t[-1] == HEX_SPLIT:
+                    cur["split"] += 1
+            elif k == "load":
+                cur["loads"] += 1
+            elif k == "store":
+                cur["stores"] += 1
+    return out
+
+
+# =========================================================================== stage A
+def classify_case(go, by_mode):
+    """compare the compiled program's line with the four interpreted ones.
+    returns (status, detail) with status in agree | skip | fuel | diff"""
+    st = "agree"
+    bad = {}
+    for m, lo in by_mode.items():
+        if "|SKIP " in lo:
+            if st == "agree":
+                st = "skip"
+            bad[m] = lo.split("|")[1]
+        elif "|FUEL|" in lo:
+            if st in ("agree", "skip"):
+                st = "fuel"
+        elif lo != go:
+            st = "diff"
+            bad[m] = lo
+    return st, bad
+
+
+def explain_diff(go, by_mode):
+    n, l = by_mode.get("N"), by_mode.get("L")
+    okN = all(by_mode.get(m) == go for m in ("N", "ND") if m in by_mode)
+    okL = all(by_mode.get(m) == go for m in ("L", "LD") if m in by_mode)
+    if okN and not okL:
+        return "lifting: the naive IR behaves like the compiled program, the lifted IR does not (go/ir/lift.go)"
+    if okL and not okN:
+        return "naive form only: the lifted IR behaves like the compiled program, the naive IR does not"
+    if n is not None and l is not None and n == l:
+        return "builder: naive and lifted IR agree with each other but not with the compiled program (go/ir/builder.go, emit.go, lvalue.go, blockopt.go) — or the reference interpreter is wrong"
+    return "naive and lifted IR differ from the compiled program in different ways"
+
+
+def stage_a(ctx, dumpbin, progs, tag, workers=6, batch=8):
+    """runs all programs; returns list of per-program result dicts"""
+    from concurrent.futures import ThreadPoolExecutor
+    batches = [progs[i:i + batch] for i in range(0, len(progs), batch)]
+
+    def do_batch(bi):
+        bdir = ctx.path(tag, "b%d" % bi, "x")
+        bdir = os.path.dirname(bdir)
+        go_out = build_and_run_batch(ctx, bdir, batches[bi])
+        res = []
+        for pi, pr in enumerate(batches[bi]):
+            dump = dump_ir(ctx, dumpbin, os.path.join(bdir, "ir%d" % pi), pr)
+            lines = list(dump)
+            for m in MODES:
+                for (fname, pt, rt, vec) in pr.cases:
+                    lines.append(case_line(m, fname, vec))
+            lines += lift_lines(pr, dump)
+            out = run_driver(lines)
+            nd = len(dump)
+            badrec = [i for i in range(nd) if out[i] != "ok"]
+            if badrec:
+                raise vlib.HarnessError("c01driver rejects dump record of %s: %s" % (pr.name, dump[badrec[0]][:300]))
+            nc = len(pr.cases)
+            cases = []
+            for ci, c in enumerate(pr.cases):
+                by_mode = {m: out[nd + mi * nc + ci] for mi, m in enumerate(MODES)}
+                if any(v == "bad-op" for v in by_mode.values()):
+                    raise vlib.HarnessError("c01driver rejects RUN line of %s %s" % (pr.name, show_case(c)))
+                st, bad = classify_case(go_out[pr.name][ci], by_mode)
+                cases.append((st, go_out[pr.name][ci], by_mode))
+            lift = out[nd + len(MODES) * nc:]
+            res.append({"prog": pr, "cases": cases, "stats": dump_stats(dump), "lift": lift})
+        return res
+
+    with ThreadPoolExecutor(max_workers=workers) as ex:
+        rs = list(ex.map(do_batch, range(len(batches))))
+    return [r for b in rs for r in b]
+
+
+def lift_lines(prog, dump):
+    """driver lines of stage B (the lift validator); filled in below"""
+    return []
+
+
+# =========================================================================== the check
+MODULES = ["Verif.C01.Theorems"]
+THEOREMS = []
+
+CORPUS_DIR = os.path.join(vlib.VERIF, "corpus", "C01")
+
+
+def load_corpus(nvec):
+    progs = []
+    if os.path.isdir(CORPUS_DIR):
+        for fn in sorted(os.listdir(CORPUS_DIR)):
+            if fn.endswith(".go"):
+                progs.append(program_from_corpus("corpus_" + fn[:-3], open(os.path.join(CORPUS_DIR, fn)).read(), nvec))
+    return progs
+
+
+def replay_obj(pr, ci, go, by_mode, why):
+    c = pr.cases[ci]
+    return {
+        "what": "the IR built by go/ir for this function does not behave like the program compiled by the Go toolchain",
+        "explanation": why,
+        "program": pr.name, "origin": pr.origin,
+        "case": show_case(c), "function": c[0], "param_types": c[1], "result_types": c[2],
+        "vector": [[k, v] for (k, v) in c[3]],
+        "compiled_program": go, "interpreted_ir": by_mode,
+        "format": "<observer calls in order>|<RET results / PANIC class>|<final globals>",
+        "global_inits": [list(g) for g in pr.global_inits],
+        "how_to_replay": "./check C01 --replay <this file>   (rebuilds the source below with `go build`, dumps the IR of the "
+                         "current tree with harness/cmd/c01dump in the modes N,L,ND,LD and runs lean/.lake/build/bin/c01driver on it)",
+        "source": pr.src,
+    }
+
+
+def program_from_replay(obj):
+    vec = [tuple(x) for x in obj["vector"]]
+    case = (obj["function"], obj["param_types"], obj["result_types"], vec)
+    return Program(obj["program"], obj["source"], [tuple(g) for g in obj["global_inits"]],
+                   [(obj["function"], obj["param_types"], obj["result_types"])], [case], obj.get("origin", {}))
+
+
+def run(ctx):
+    import json
+    import time
+    lean_ok, lean_broke = vlib.std_lean_phase(ctx, MODULES, THEOREMS)
+    if not lean_ok and "lake_build_failed" in lean_broke and not os.path.exists(vlib.driver_path("C01")):
+        raise vlib.HarnessError("c01driver does not build: %s" % lean_broke)
+    dumpbin = vlib.build_harness(ctx, "c01dump")
+    known = vlib.load_known_findings("C01")
+
+    if ctx.replay:
+        progs = [program_from_replay(json.load(open(ctx.replay)))]
+        corpus, gen = progs, []
+    else:
+        nvec = 6 if ctx.quick else 8
+        corpus = load_corpus(nvec)
+        nprog = 10 if ctx.quick else 150
+        rng = vlib.SplitMix(ctx.seed)
+        gen = [program_from_seed("gen%d" % i, rng.fork("prog%d" % i).s, nvec) for i in range(nprog)]
+    t0 = time.time()
+    results = stage_a(ctx, dumpbin, corpus, "corpus", workers=3, batch=max(1, (len(corpus) + 2) // 3)) if corpus else []
+    results += stage_a(ctx, dumpbin, gen, "gen", workers=5 if ctx.quick else 6, batch=2 if ctx.quick else 6) if gen else []
+    t_a = time.time() - t0
+
+    # ---- classify
+    counts = {"agree": 0, "skip": 0, "fuel": 0, "diff": 0}
+    skip_reasons = {}
+    nontrivial = {}
+    kinds = {}
+    fn_total = 0
+    samples = []
+    ndiff_reported = 0
+    for r in results:
+        pr = r["prog"]
+        stL, stN = r["stats"].get("L", {}), r["stats"].get("N", {})
+        ran = set(c[0] for c in pr.cases)
+        for name, s in stL.items():
+            fn_total += 1
+            for k in s["kinds"]:
+                kinds[k] = kinds.get(k, 0) + 1
+            n = stN.get(name)
+            newphis = s["phis"] - (n["phis"] if n else 0)
+            if newphis > 0 or s["split"] > 0 or s["recover"]:
+                import hashlib
+                h = hashlib.sha256(" ".join(s["shape"]).encode()).hexdigest()[:16]
+                nontrivial[h] = name
+        diffs_here = {}
+        for ci, (st, go, by_mode) in enumerate(r["cases"]):
+            counts[st] += 1
+            if st == "skip":
+                for m, lo in by_mode.items():
+                    if "|SKIP " in lo:
+                        w = lo.split("|")[1]
+                        skip_reasons[w] = skip_reasons.get(w, 0) + 1
+            if st == "diff":
+                diffs_here.setdefault(pr.cases[ci][0], []).append(ci)
+            elif len(samples) < 4 and ci % 37 == 5:
+                samples.append({"program": pr.name, "case": show_case(pr.cases[ci]), "compiled": go, "ir_modes_agreeing": sorted(by_mode)})
+        for fname, cis in sorted(diffs_here.items()):
+            ci = cis[0]
+            st, go, by_mode = r["cases"][ci]
+            why = explain_diff(go, by_mode)
+            obj = replay_obj(pr, ci, go, by_mode, why)
+            obj["other_failing_cases_of_this_function"] = [show_case(pr.cases[i]) for i in cis[1:6]]
+            key = finding_key(pr, fname, obj)
+            if key and key in known:
+                ctx.known_finding("key=%s %s %s" % (key, pr.name, show_case(pr.cases[ci])))
+                continue
+            ndiff_reported += 1
+            if ndiff_reported <= 12:
+                ctx.violation("stageA_%s_%s.json" % (pr.name, fname), obj,
+                              text="C01: %s %s: compiled %r, IR %s" % (pr.name, show_case(pr.cases[ci]), go[-160:],
+                                                                       {m: v[-160:] for m, v in by_mode.items() if v != go}) + "\n" + why)
+
+    total = sum(counts.values())
+    ctx.coverage.update({
+        "programs": len(results),
+        "functions_dumped_per_mode": fn_total,
+        "evaluations": total * len(MODES),
+        "cases": total,
+        "case_status": counts,
+        "skip_reasons": dict(sorted(skip_reasons.items(), key=lambda kv: -kv[1])[:12]),
+        "disagreements_checked": counts["diff"],
+        "distinct_nontrivial": len(nontrivial),
+        "rule": "seeded generator of type-correct Go programs (24 entry functions + 6 helpers each) plus the hand-written corpus; "
+                "every entry function is run on its input vectors compiled by the Go toolchain and interpreted from the IR dumps of "
+                "the modes N, L, ND, LD; non-trivial = function whose lifted form has a new phi, a split alloc or a recover block; "
+                "distinct = by the sequence of (instruction kind, block) of its lifted dump",
+        "instruction_kinds_seen": dict(sorted(kinds.items())),
+        "samples": samples,
+        "stage_a_wall_s": round(t_a, 1),
+    })
+    ctx.assumptions += [
+        "the Go toolchain (go1.26 gc) is the reference for source semantics; where the spec leaves evaluation order open the generator avoids the construct",
+        "lean/Verif/C01/Interp.lean (reference interpreter = 'documented meaning of each instruction') is compiled Lean, validated by this differential run, not proved",
+        "harness/cmd/c01dump + Parse.lean (dump of the exported go/ir API)",
+    ]
+    if not lean_ok and not ctx.violations:
+        ctx.violation("lean.json", {"what": "the Lean side of C01 no longer builds / audits", "lean": lean_broke}, nofail=True)
+    return vlib.finish(ctx, "translation_validation")
+
+
+def finding_key(pr, fname, obj):
+    return None
+
+
+META = {
+    "level": "translation_validation",
+    "technique": "differential execution: Lean reference interpreter of go/ir dumps vs the Go toolchain",
+    "text": "wip",
+    "note": "wip",
+    "design_ref": "DESIGN.md section 5, C01",
+}
